@@ -17,7 +17,10 @@ Oracle rules (violation classes):
   turn_count              no turn for a ball number above balls_per_game
   game_end_early          the game does not end before the last player played the last ball number
   turn_after_end_request  no new player turn once end_game / slam tilt was processed (before the previous turn ended)
-  extra_ball              one more ball per awarded extra ball (awarded before the turn closes), none without award
+  extra_ball              one more ball per awarded extra ball, none without award.  An award belongs to the turn when
+                          it was processed before player_turn_will_end of that turn - in posting order for external
+                          requests, in the handlers' view (dispatch order) for awards made inside a handler of a
+                          lifecycle event of the turn (ball_ended, ball_ending, ...)
   ball_end_cause          a ball ends only if balls in play reached zero or an end was requested *for that ball*
   ball_not_ended/_late    ... and does end, within LIVE_BOUND, when it did (bounded liveness)
   bip_bounds / bip_model  0 <= balls_in_play <= num_balls_known at every tap; equals the reference model at lifecycle taps
@@ -54,7 +57,7 @@ PROBES = ["game_completed", "second_game", "op_inside_hold", "add_inside_hold", 
           "extra_ball_played", "save_used", "bip_capped", "overdrain_clamped", "add_refused_after_ball1",
           "late_player_joined", "add_denied", "end_game_during_start", "slam_during_game", "tilt_during_ball",
           "four_players", "restart_after_end", "playfield_wait", "sync_handler_op", "multiball_drained",
-          "end_game_midgame", "natural_game_end_multi_player", "hop_op",
+          "end_game_midgame", "natural_game_end_multi_player", "hop_op", "award_in_ball_end_handler",
           "hold_game_starting", "hold_player_adding", "hold_player_turn_starting", "hold_ball_starting",
           "hold_ball_ending", "hold_player_turn_ending", "hold_game_ending"]
 REAL = ["mpf.modes.game.code.game.Game (AsyncMode coroutine)", "mpf.modes.attract.code.attract.Attract",
@@ -87,6 +90,10 @@ ANCHOR_PICK = ANCHORS + ["ball_will_start", "ball_starting", "ball_started", "ba
 TURN_PHASES = {"player_turn_will_start", "player_turn_starting", "player_turn_started", "ball_will_start",
                "ball_starting", "ball_started", "ball_will_end", "ball_ending", "ball_ended", "player_turn_will_end",
                "player_turn_ending"}
+# lifecycle events of a turn whose handlers still see the turn open / events that close it
+PRE_TURN_END = {"player_turn_will_start", "player_turn_starting", "player_turn_started", "ball_will_start", "ball_starting",
+                "ball_started", "ball_will_end", "ball_ending", "ball_ended"}
+TURN_CLOSED = {"player_turn_will_end", "player_turn_ending", "player_turn_ended", "game_will_end", "game_ending", "game_ended"}
 LIVE_BOUND = 0.5
 MAX_HOLD = 2.5
 
@@ -163,6 +170,15 @@ def plan(ch, tier):
                                "player_turn_ending", "ball_ended"])
         ops.append({"t": "anch", "ev": evn, "n": ch.pick("g_n", [0, 1, 1, 2, 2, 3, 4]),
                     "delay": ch.pick("g_delay", [None, None, 0.0]), "do": {"a": ch.pick("g_how", ["add_ev", "btn"])}})
+    # guided: extra balls awarded by handlers of the ball-end events (with and without a hold on ball_ending)
+    if ch.flag("g_eb", 0.4):
+        for _ in range(1 + ch.choice("g_eb_n", 2)):
+            evn = ch.pick("g_eb_ev", ["ball_ended", "ball_ended", "ball_ended", "ball_ending", "ball_will_end", "ball_started"])
+            k = ch.pick("g_eb_k", [0, 0, 1, 1, 2, 3, 5])
+            ops.append({"t": "anch", "ev": evn, "n": k, "delay": ch.pick("g_eb_delay", [None, None, None, "h1", 0.0]),
+                        "do": {"a": "eb"}})
+            if evn == "ball_ending" and ch.flag("g_eb_hold", 0.5):
+                ops.append({"t": "hold", "ev": "ball_ending", "n": k, "dur": ch.pick("g_eb_dur", [0.0, 0.3, 1.0])})
     # guided: a new start request in the instants around game_ended (attract restarts, the game mode stops)
     if ch.flag("g_restart", 0.3):
         ops.append({"t": "anch", "ev": ch.pick("gr_ev", ["game_ended", "game_ended", "game_ending", "player_turn_ended"]),
@@ -730,7 +746,7 @@ def execute(ctx, plan):
     # -- requests ------------------------------------------------------------------------------
     held = {"n": 0}
 
-    def do_action(do, how):
+    def do_action(do, how, at=None):
         now = loop.time()
         a = do["a"]
         if world["settling"]:
@@ -779,6 +795,18 @@ def execute(ctx, plan):
         elif a == "deny":
             world["deny"] = min(2, world["deny"] + 1)
         elif a == "eb":
+            if how == "sync" and at in PRE_TURN_END and orc.active and orc.phase != at and orc.phase in TURN_CLOSED \
+                    and not orc.end_requested():
+                # Statement: a turn is 'one ball plus one more per extra ball awarded'.  An award made by a handler of
+                # a lifecycle event of the turn that precedes player_turn_will_end (handlers' view: the turn is still
+                # open) belongs to this turn.  If the game has already posted the closing events it decided the
+                # turn's extra balls before the handlers of that event could run.
+                ctx.probe("award_in_ball_end_handler")
+                orc.v("extra_ball", "turn closed before the handlers of %s ran" % at,
+                      "extra ball awarded inside a handler of %s, but the game has already posted %s: the award can "
+                      "no longer be played in this turn" % (at, orc.phase))
+            if how == "sync" and at in ("ball_ended", "ball_ending", "ball_will_end") and orc.in_turn():
+                ctx.probe("award_in_ball_end_handler")
             if g is not None and orc.in_turn() and g.player is not None:
                 if g.player.number != orc.cur:
                     orc.v("current_player", "game.player is not the player whose turn it is",
@@ -854,7 +882,7 @@ def execute(ctx, plan):
             seen[name] = n + 1
             for op in (anchors.get((name, n), ()) if not world["settling"] else ()):
                 if op["delay"] is None:
-                    do_action(op["do"], "sync")
+                    do_action(op["do"], "sync", name)
                 elif isinstance(op["delay"], str):
                     hop(int(op["delay"][1:]), op["do"])      # "h3": three loop iterations later, same instant
                 else:
